@@ -266,8 +266,17 @@ def run(ctx):
         # a client leaves only because its connection is finished: each removal (directly, or through the to-remove list) is
         # on the `true` edge of that client's drive_connection() — never on a readiness flag, which a half-closed client that
         # is still reading also raises
+        from facts import PredFlow
+
+        _dcpf = []
+
         def _dc_true(bb):
-            return any(lab is True and sym_is_call(dd, "drive_connection") for dd, lab in gates(b, bb))
+            if any(lab is True and sym_is_call(dd, "drive_connection") for dd, lab in gates(b, bb)):
+                return True
+            # the verdict carried by a bool (a helper returning `done`, spliced in): true only where a drive_connection() was
+            if not _dcpf:
+                _dcpf.append(PredFlow(rt, lambda subj, v: None, lambda x: ("P", "N") if sym_is_call(strip_sym(x), "drive_connection") else None))
+            return _dcpf[0].at(bb) == "P"
 
         marks = [c for c in nonforeign_calls(rt) if c.fn is rt and c.is_("Vec<T, A>::push", "Vec<T>::push") and "clients_to_remove" in _name_of(rt, c.args[0])]
         bad_rm = []
